@@ -26,7 +26,10 @@ Definition check_matches (sp : aspec) (c : row) : bool :=
    && (if s_mutating sp then r_readonly c else true)).
 
 (* backend calls made on behalf of another operation's branch (reads used to build that operation's input) *)
-Definition internal_calls : list (string * string) := [("PutBucketActions", "GetBucketOwnershipControls"); ("PutActions", "GetBucketPolicy")].
+Definition internal_calls : list (string * string) :=
+  [("PutBucketActions", "GetBucketOwnershipControls"); ("PutActions", "GetBucketPolicy");
+   (* after an authorised CopyObject / CompleteMultipartUpload: the size of the object just written, for its notification *)
+   ("PutActions", "HeadObject"); ("CreateActions", "HeadObject")].
 Definition is_internal (r : row) : bool :=
   existsb (fun hc => String.eqb (fst hc) (r_handler r) && String.eqb ("be." ++ snd hc) (r_kind r)) internal_calls.
 
